@@ -31,15 +31,9 @@ package actor
 
 //@ func (Processer).Send(target, msg, sender)
 //@   abstract
-//@   modifies heap except private
+//@   modifies
 //@   emits ProcSend(self, target, msg, sender)
 
-// Boundary of the remote package: handing a decoded message to the local
-// engine. Trusted here (assumed: returns normally, writes nothing the stream
-// reader reads again); its own behaviour is the subject of C01/C09.
-//@ func (*Engine).SendLocal(pid, msg, sender)
-//@   trusted
-//@   modifies
 
 // Publishing an event: one Broadcast entry in the effect log (the routing of
 // the event to the stream actor is C09/C12).
@@ -60,7 +54,7 @@ package actor
 //@ lockinv[C10.inv] r.lookup != nil
 
 //@ func (*Registry).add(proc)
-//@   props C10
+//@   props C10 C04
 //@   requires r != nil && r.engine != nil && !isnil(proc)
 //@   atunlock[C10.add.dup-untouched] old(has(r.lookup, pidof(proc).ID)) ==> forallS("Str", id, has(r.lookup, id) == old(has(r.lookup, id)) && r.lookup[id] == old(r.lookup[id]))
 //@   atunlock[C10.add.insert-dom] !old(has(r.lookup, pidof(proc).ID)) ==> forallS("Str", id, has(r.lookup, id) == (old(has(r.lookup, id)) || id == pidof(proc).ID))
@@ -68,6 +62,7 @@ package actor
 //@   atunlock[C10.add.insert-kept] !old(has(r.lookup, pidof(proc).ID)) ==> forallS("Str", id, id != pidof(proc).ID ==> r.lookup[id] == old(r.lookup[id]))
 //@   ghost at mapupdate#1: emit RegAdd(r, key, value)
 //@   atunlock[C10.add.regadd-iff] (old(has(r.lookup, pidof(proc).ID)) ==> loglen == entry(loglen)) && (!old(has(r.lookup, pidof(proc).ID)) ==> loglen == entry(loglen) + 1 && log[entry(loglen)] == RegAdd(r, pidof(proc).ID, proc))
+//@   ensures[C04.add.registered-then-started-synchronously] !old(has(r.lookup, pidof(proc).ID)) ==> loglen == entry(loglen) + 2 && log[entry(loglen)] == RegAdd(r, pidof(proc).ID, proc) && log[entry(loglen) + 1] == ProcStart(proc)
 //@   ensures[C10.add.dup-event] old(has(r.lookup, pidof(proc).ID)) ==> loglen == entry(loglen) + 1 && log[entry(loglen)] == Broadcast(r.engine, ActorDuplicateIdEvent{PID: pidof(proc)})
 //@   ensures[C10.add.winner-started] !old(has(r.lookup, pidof(proc).ID)) ==> loglen == entry(loglen) + 2 && log[entry(loglen)] == RegAdd(r, pidof(proc).ID, proc) && log[entry(loglen) + 1] == ProcStart(proc)
 
@@ -323,13 +318,23 @@ package actor
 //@   ensures[C04.tryrestart.log-prefix] loglen >= entry(loglen) && forall(k, 0 <= k && k < entry(loglen) ==> log[k] == entry(log)[k])
 
 //@ func (*process).Start()
-//@   props C04 C05 C13 C12
+//@   props C04 C05 C13 C12 C06
 //@   requires procInv(p) && curproc == p && budgetInv(p) && !afterCrash && mbufOK(p)
 //@   requires[C04.start.no-live-incarnation] phase == 3
 //@   nopanic[C05.start.nopanic]
 //@   modifies heap except private, p.context.receiver, p.context.message, p.context.sender, p.mbuffer, p.restarts, phase, log, loglen, afterCrash
-//@   ghost at entry: replayed = false
+//@   ghost at entry: replayed = false; replayedAll = false
+//@   ghost at call Invoke#1 before: replayedAll = arg1 == old(p.mbuffer) && arg0 == p && phase == 2
 //@   ghost at call Invoke#1: replayed = true
+//@   ghost at call len#1 before: assert[C04.start.sequence] phase == 2 && loglen == entry(loglen) + 5 && log[entry(loglen)] == Produce(p) &&
+//@        isev(log[entry(loglen) + 1], Deliver) && log[entry(loglen) + 1].Deliver_ctx == p.context && istype(log[entry(loglen) + 1].Deliver_msg, Initialized) &&
+//@        isev(log[entry(loglen) + 3], Deliver) && log[entry(loglen) + 3].Deliver_ctx == p.context && istype(log[entry(loglen) + 3].Deliver_msg, Started)
+//@   ghost at call len#1 before: assert[C12.start.lifecycle-events] isev(log[entry(loglen) + 2], Broadcast) && log[entry(loglen) + 2].Broadcast_e == p.context.engine && istype(log[entry(loglen) + 2].Broadcast_msg, ActorInitializedEvent) &&
+//@        log[entry(loglen) + 2].Broadcast_msg.(ActorInitializedEvent).PID == p.pid && isev(log[entry(loglen) + 4], Broadcast) && log[entry(loglen) + 4].Broadcast_e == p.context.engine &&
+//@        istype(log[entry(loglen) + 4].Broadcast_msg, ActorStartedEvent) && log[entry(loglen) + 4].Broadcast_msg.(ActorStartedEvent).PID == p.pid
+//@   ghost at call Start#1 before: assert[C05.start.replay-before-open] old(len(p.mbuffer)) > 0 ==> replayed && replayedAll
+//@   ghost at call Start#1 before: assert[C05.start.buffer-cleared] len(p.mbuffer) == 0
+//@   ghost at call Start#1: assert[C04.start.inbox-opened-last] log[loglen - 1] == InboxStart(p.inbox, p)
 //@   ghost at call Start#1 before: assert[C04.inbox.opened-only-for-live-actor] !replayed ==> phase == 2
 //@   ghost at call Start#1 before: assert[C04.inbox.opened-only-for-live-actor@after-replay] replayed ==> phase == 2
 //@   ensures[C04.start.phase] phase == 2 || phase == 3
@@ -371,8 +376,8 @@ package actor
 //@   ensures[C06.budget.bounded] budgetInv(p)
 //@   ensures !isnil(p.context.receiver) && procInv(p)
 //@   ensures[C04.invoke.log-prefix] loglen >= entry(loglen) && forall(k, 0 <= k && k < entry(loglen) ==> log[k] == entry(log)[k])
-//@   ghost at entry: inDrain = false; drainIdx = 0
-//@   ghost at call invokeMsg#2 before: inDrain = true; drainIdx = processed + rangeindex
+//@   ghost at entry: inDrain = false; drainIdx = 0; pillIdx = 0
+//@   ghost at call invokeMsg#2 before: inDrain = true; drainIdx = processed + rangeindex; pillIdx = processed
 //@   ghost at return#2: assert[C01.invoke.order] loglen == entry(loglen) + len(msgs) && forall(k, 0 <= k && k < len(msgs) ==> log[entry(loglen) + k] == deliveryOf(p, msgs[k].Msg, msgs[k].Sender))
 //@   ghost at call cleanup#1 before: assert[C07.pill.messages-before-it-first] loglen >= entry(loglen) + i && forall(k, 0 <= k && k < i ==> log[entry(loglen) + k] == deliveryOf(p, msgs[k].Msg, msgs[k].Sender))
 //@   ghost at call cleanup#1 before: assert[C07.stop.immediate] !pill.graceful ==> loglen == entry(loglen) + i
@@ -405,8 +410,145 @@ package actor
 //@   ghost at call tryRestart#1 before: assert[C05.crash.buffer] len(p.mbuffer) == nmsg - nproc && forall(j, 0 <= j && j < nmsg - nproc ==> p.mbuffer[j] == msgs[nproc + j])
 //@   ghost at call tryRestart#1 before: assert[C05.crash.failed-not-redelivered] !inDrain ==> loglen == entry(loglen) + nproc + 1 && forall(k, 0 <= k && k < nproc ==> log[entry(loglen) + k] == deliveryOf(p, msgs[k].Msg, msgs[k].Sender))
 //@   ghost at call tryRestart#1 before: assert[C05.crash.failed-not-redelivered@while-draining-behind-pill] inDrain ==> nproc == drainIdx + 1
+//@   ghost at call tryRestart#1 before: assert[C07.pill.every-cancel@crash-while-draining-behind-it] inDrain ==> nproc <= pillIdx
 //@   ghost at call tryRestart#1 before: assert[C05.crash.stopped-to-failed] phase == 3 && isev(log[loglen - 1], Deliver) && log[loglen - 1].Deliver_ctx == p.context && istype(log[loglen - 1].Deliver_msg, Stopped)
 //@   loop 1
 //@     invariant 0 <= i && i <= nmsg - nproc && len(p.mbuffer) == nmsg - nproc && fresh(p.mbuffer) && p.mbuffer.off == 0
 //@     invariant forall(j, 0 <= j && j < i ==> p.mbuffer[j] == msgs[j + nproc])
 //@     modifies elements(p.mbuffer)
+
+
+// ---------------------------------------------------------------------------
+// The send path (C01 C09 C07 C11 C12 C17). sentLocal(.., k): what SendLocal
+// appends at log position k: either the dead letter for exactly this
+// (target, message, sender), or exactly one Send of exactly these values to a
+// registered processer. Which of the two depends on the registry at the moment
+// of the lookup (Registry.get's own contract, C10).
+
+//@ event RemoteSend(r Iface, pid Ref as *PID, msg Iface, sender Ref as *PID)
+
+//@ pred sentLocal(e, pid, msg, sender, k) := log[k] == Broadcast(e, DeadLetterEvent{Target: pid, Message: msg, Sender: sender}) ||
+//@      (isev(log[k], ProcSend) && !isnil(log[k].ProcSend_proc) && log[k].ProcSend_target == pid && log[k].ProcSend_msg == msg && log[k].ProcSend_sender == sender)
+//@ pred sendEffect(e, pid, msg, sender, k0, k1) := (pid == nil ==> k1 == k0) && (pid != nil ==> k1 == k0 + 1) &&
+//@      (pid != nil && e.address == pid.Address ==> sentLocal(e, pid, msg, sender, k0)) &&
+//@      (pid != nil && e.address != pid.Address && isnil(e.remote) ==> log[k0] == Broadcast(e, EngineRemoteMissingEvent{Target: pid, Sender: sender, Message: msg})) &&
+//@      (pid != nil && e.address != pid.Address && !isnil(e.remote) ==> log[k0] == RemoteSend(e.remote, pid, msg, sender))
+//@ pred logPrefix(k0) := forall(k, 0 <= k && k < k0 ==> log[k] == entry(log)[k])
+//@ pred engInv(e) := e != nil && e.Registry != nil && e.Registry.engine != nil
+
+//@ func (Remoter).Send(pid, msg, sender)
+//@   abstract
+//@   modifies
+//@   emits RemoteSend(self, pid, msg, sender)
+
+//@ func (*Engine).isLocalMessage(pid)
+//@   props C01 C09
+//@   requires e != nil
+//@   pure
+//@   ensures[C01.islocal.def] result == (pid != nil && e.address == pid.Address)
+
+//@ func (*Engine).SendLocal(pid, msg, sender)
+//@   props C01 C09 C16
+//@   requires engInv(e)
+//@   nopanic[C09.sendlocal.nopanic]
+//@   modifies log, loglen
+//@   ghost at call get#1 before: assert[C01.sendlocal.lookup-target] arg0 == e.Registry && arg1 == pid
+//@   ghost at call get#1: got = result
+//@   ghost at return#1: assert[C09.deadletter.once] isnil(got) && loglen == entry(loglen) + 1 && log[entry(loglen)] == Broadcast(e, DeadLetterEvent{Target: pid, Message: msg, Sender: sender})
+//@   ghost at return#2: assert[C01.sendlocal.once] !isnil(got) && loglen == entry(loglen) + 1 && log[entry(loglen)] == ProcSend(got, pid, msg, sender)
+//@   ensures[C01.sendlocal.effect] loglen == entry(loglen) + 1 && sentLocal(e, pid, msg, sender, entry(loglen)) && logPrefix(entry(loglen))
+
+//@ func (*Engine).send(pid, msg, sender)
+//@   props C01 C09 C17
+//@   requires engInv(e)
+//@   nopanic[C09.send.nopanic]
+//@   modifies log, loglen
+//@   ensures[C09.send.nil-is-noop] pid == nil ==> loglen == entry(loglen)
+//@   ensures[C01.send.local-route] pid != nil && e.address == pid.Address ==> loglen == entry(loglen) + 1 && sentLocal(e, pid, msg, sender, entry(loglen))
+//@   ensures[C09.send.remote-missing] pid != nil && e.address != pid.Address && isnil(e.remote) ==> loglen == entry(loglen) + 1 && log[entry(loglen)] == Broadcast(e, EngineRemoteMissingEvent{Target: pid, Sender: sender, Message: msg})
+//@   ensures[C17.send.remote-route] pid != nil && e.address != pid.Address && !isnil(e.remote) ==> loglen == entry(loglen) + 1 && log[entry(loglen)] == RemoteSend(e.remote, pid, msg, sender)
+//@   ensures[C01.send.log-prefix] logPrefix(entry(loglen))
+
+//@ func (*Engine).Send(pid, msg)
+//@   props C01 C09
+//@   requires engInv(e)
+//@   nopanic[C09.send.nopanic]
+//@   modifies log, loglen
+//@   ensures[C01.send.effect] sendEffect(e, pid, msg, nil, entry(loglen), loglen) && logPrefix(entry(loglen))
+
+//@ func (*Engine).SendWithSender(pid, msg, sender)
+//@   props C01 C09
+//@   requires engInv(e)
+//@   nopanic[C09.send.nopanic]
+//@   modifies log, loglen
+//@   ensures[C01.send.effect] sendEffect(e, pid, msg, sender, entry(loglen), loglen) && logPrefix(entry(loglen))
+
+// A poison pill: unknown PID => dead letter + immediate cancel of the returned
+// context; otherwise the pill (carrying that context's cancel func) goes through
+// SendLocal. ctxcancel(c) names the cancel func of a context made by WithCancel.
+//@ func (*Engine).sendPoisonPill(ctx, graceful, pid)
+//@   props C07 C09
+//@   requires engInv(e)
+//@   nopanic[C07.poison.nopanic]
+//@   modifies log, loglen
+//@   ghost at call get#1: got = result
+//@   ghost at return#1: assert[C07.pill.unknown-pid-cancelled-at-once] isnil(got) && loglen == entry(loglen) + 2 &&
+//@        log[entry(loglen)] == Broadcast(e, DeadLetterEvent{Target: pid, Message: poisonPill{cancel: ctxcancel(result), graceful: graceful}, Sender: nil}) && log[entry(loglen) + 1] == Cancel(ctxcancel(result))
+//@   ghost at return#2: assert[C07.pill.enqueued-once] !isnil(got) && loglen == entry(loglen) + 1 && sentLocal(e, pid, poisonPill{cancel: ctxcancel(result), graceful: graceful}, nil, entry(loglen))
+//@   ensures[C07.poison.ctx] !isnil(result) && logPrefix(entry(loglen)) && loglen >= entry(loglen) + 1
+
+//@ func (*Engine).Stop(pid)
+//@   props C07
+//@   requires engInv(e)
+//@   modifies log, loglen
+//@   ghost at call sendPoisonPill#1 before: assert[C07.stop.not-graceful] arg0 == e && arg2 == false && arg3 == pid
+//@   ensures !isnil(result) && logPrefix(entry(loglen))
+
+// ---------------------------------------------------------------------------
+// From a Processer to the ring and back (C01): process.Send, Inbox.Send,
+// Inbox.run. The interleaving of these with the worker (one worker at a time,
+// no lost wake-up) is the subject of C02/C03 and is not decided here.
+
+//@ event RingPush(rb Ref, msg Iface, sender Ref as *PID)
+//@ event ProcInvoke(proc Iface, msgs Slice)
+
+//@ func (Processer).Invoke(msgs)
+//@   abstract
+//@   modifies heap except H$actor.Inbox$proc H$actor.Inbox$rb H$actor.Inbox$scheduler
+//@   emits ProcInvoke(self, msgs)
+
+//@ func (Scheduler).Schedule(fn)
+//@   abstract
+//@   modifies
+
+//@ func (Scheduler).Throughput()
+//@   abstract
+//@   pure
+
+//@ func (*process).Send(a, msg, sender)
+//@   props C01
+//@   requires p != nil && !isnil(p.inbox)
+//@   modifies
+//@   emits InboxSend(p.inbox, msg, sender)
+
+//@ func (*Inbox).schedule()
+//@   props C01
+//@   requires in != nil && !isnil(in.scheduler)
+//@   modifies in.procStatus
+
+//@ func (*Inbox).Send(msg)
+//@   props C01 C03
+//@   requires in != nil && in.rb != nil && !isnil(in.scheduler)
+//@   modifies in.procStatus, in.rb.content, in.rb.len, in.rb.content.*, elements(in.rb.content.items)
+//@   ghost at call Push#1: emit RingPush(arg0, arg1.Msg, arg1.Sender)
+//@   ghost at call schedule#1 before: assert[C03.send.push-before-schedule] loglen == entry(loglen) + 1
+//@   emits RingPush(in.rb, msg.Msg, msg.Sender)
+
+//@ func (*Inbox).run()
+//@   props C01
+//@   requires in != nil && in.rb != nil && !isnil(in.scheduler) && !isnil(in.proc)
+//@   ghost at call PopN#1 before: assert[C01.run.pops-own-ring] arg0 == in.rb && arg1 >= 1
+//@   ghost at call PopN#1: popped = result0
+//@   ghost at call Invoke#1 before: assert[C01.run.batch-whole-to-own-processer] recv == in.proc && arg0 == popped && len(arg0) > 0
+//@   loop 1
+//@     invariant in.rb != nil && !isnil(in.scheduler) && !isnil(in.proc)
